@@ -71,28 +71,21 @@ const (
 	c38Endpoint  = "s3.localhost"
 )
 
-func newC38Stacks(ctx context.Context, r *vkit.Run) (*c38Stacks, error) {
-	st := &c38Stacks{}
-	var err error
-	if st.envA, st.a0, err = openStore(r, "c38-a", "sql"); err != nil {
-		return nil, err
-	}
-	if st.envB, st.b, err = openStore(r, "c38-b", "sql"); err != nil {
-		st.close(ctx)
-		return nil, err
-	}
+// newS3ClientOver starts an in-process pithos HTTP server (SetupServer, SigV4
+// credentials, allow-all authorizer) in front of the given storage and returns an
+// S3ClientStorage (behind a panic guard) that talks to it.
+func newS3ClientOver(ctx context.Context, backing storage.Storage) (storage.Storage, *httptest.Server, error) {
 	auth, err := lua.NewLuaAuthorizer("function authorizeRequest(request)\n  return true\nend\n")
 	if err != nil {
-		st.close(ctx)
-		return nil, err
+		return nil, nil, err
 	}
 	creds := []settings.Credentials{{AccessKeyId: c38AccessKey, SecretAccessKey: c38Secret}}
-	st.srv = httptest.NewServer(server.SetupServer(creds, c38Region, c38Endpoint, "s3-website.localhost", auth, st.a0))
-	addr := st.srv.Listener.Addr().String()
+	srv := httptest.NewServer(server.SetupServer(creds, c38Region, c38Endpoint, "s3-website.localhost", auth, backing))
+	addr := srv.Listener.Addr().String()
 	_, port, err := net.SplitHostPort(addr)
 	if err != nil {
-		st.close(ctx)
-		return nil, err
+		srv.Close()
+		return nil, nil, err
 	}
 	httpClient := awshttp.NewBuildableClient().WithTransportOptions(func(tr *http.Transport) {
 		tr.DialContext = func(ctx context.Context, network, _ string) (net.Conn, error) {
@@ -105,8 +98,8 @@ func newC38Stacks(ctx context.Context, r *vkit.Run) (*c38Stacks, error) {
 		awsconfig.WithCredentialsProvider(credentials.NewStaticCredentialsProvider(c38AccessKey, c38Secret, "")),
 	)
 	if err != nil {
-		st.close(ctx)
-		return nil, err
+		srv.Close()
+		return nil, nil, err
 	}
 	client := s3.NewFromConfig(cfg, func(o *s3.Options) {
 		o.UsePathStyle = true
@@ -115,11 +108,28 @@ func newC38Stacks(ctx context.Context, r *vkit.Run) (*c38Stacks, error) {
 	})
 	inner, err := s3client.NewStorage(client)
 	if err != nil {
+		srv.Close()
+		return nil, nil, err
+	}
+	a := &panicGuard{Storage: inner}
+	if err = a.Start(ctx); err != nil {
+		srv.Close()
+		return nil, nil, err
+	}
+	return a, srv, nil
+}
+
+func newC38Stacks(ctx context.Context, r *vkit.Run) (*c38Stacks, error) {
+	st := &c38Stacks{}
+	var err error
+	if st.envA, st.a0, err = openStore(r, "c38-a", "sql"); err != nil {
+		return nil, err
+	}
+	if st.envB, st.b, err = openStore(r, "c38-b", "sql"); err != nil {
 		st.close(ctx)
 		return nil, err
 	}
-	st.a = &panicGuard{Storage: inner}
-	if err = st.a.Start(ctx); err != nil {
+	if st.a, st.srv, err = newS3ClientOver(ctx, st.a0); err != nil {
 		st.close(ctx)
 		return nil, err
 	}
@@ -268,14 +278,29 @@ type c38History struct {
 	steps  []c38Step
 	desync bool
 	abort  string
-	// scripted histories (error matrix) are not generated from the model
+	// scripted histories (error matrix, key scenario) are not generated from the model
 	scripted bool
+	// key scenario: sigTag (class of the key in use) is appended to the signature of a
+	// divergence unless the control key showed the same divergence (recordControl)
+	sigTag        string
+	recordControl bool
+	controlSigs   map[string]bool
 }
 
 func (h *c38History) add(sig, what string, desync bool, mask string) {
 	h.r.Count("divergences_observed", 1)
 	if desync {
 		h.desync = true
+	}
+	if h.recordControl && h.controlSigs != nil {
+		h.controlSigs[sig] = true
+	}
+	if h.sigTag != "" {
+		if h.controlSigs[sig] {
+			h.r.Count("key_scenario_divergences_shared_with_the_control_key(not key specific)", 1)
+			return
+		}
+		sig, mask = sig+":"+h.sigTag, ""
 	}
 	if h.seen[sig] {
 		return
@@ -842,6 +867,12 @@ func runC38History(ctx context.Context, r *vkit.Run, st *c38Stacks, base *vkit.R
 	}
 	prof.NoAppend = true
 	delete(prof.Weights, vmodel.OpAppend)
+	if index%3 == 1 {
+		// every third history also works on keys that are rewritten on the way through
+		// HTTP, including a pair that collides under a wrong unescaping
+		prof.Keys = append(append([]string{}, prof.Keys...), "a+b", "a b", "p%20q+r s")
+		prof.Name += "+special-keys"
+	}
 	for bi := range prof.Buckets {
 		prof.Buckets[bi] = fmt.Sprintf("%s-%d", prof.Buckets[bi], index)
 	}
@@ -1014,7 +1045,8 @@ func runC38(tier, replay string) {
 	r.SetExtra("excluded_operations", []string{"append (ErrNotImplemented by design)", "copy with byte range (ErrNotImplemented by design)", "transition by version id (ErrNotImplemented by design)"})
 	nh, steps := r.N(24, 300), r.N(50, 70)
 	masks := maskSet{}
-	only := -2
+	const none = -100
+	only := none
 	if replay != "" {
 		var w c38Witness
 		seed, t := loadReplay(replay, &w)
@@ -1027,7 +1059,7 @@ func runC38(tier, replay string) {
 	base := r.Rand()
 	reported := map[string]bool{}
 	examples := map[string]string{}
-	for i := c38MatrixIndex; i < nh || (only >= 0 && i <= only); i++ {
+	for i := c38KeysIndex; i < nh || (only >= 0 && i <= only); i++ {
 		if replay != "" && i != only {
 			continue
 		}
@@ -1039,6 +1071,8 @@ func runC38(tier, replay string) {
 		var w c38Witness
 		if i == c38MatrixIndex {
 			h, w = runC38Matrix(ctx, r, st, cur)
+		} else if i == c38KeysIndex {
+			h, w = runC38Keys(ctx, r, st, cur)
 		} else {
 			h, w = runC38History(ctx, r, st, base, i, steps, cur, replay != "")
 		}
